@@ -4,7 +4,8 @@
 // Events   [1 n]    Enqueue(n jobs) in a new actor (parks at the HoldLock entry)
 //
 //	[2 k]    WaitIdle(ctx, errCh) in a new actor; k=1: errCh is a buffered channel, k=0: nil
-//	[3 k]    WatchState(ctx, nil, cb) in a new actor; k=1: cb non-nil, k=0: nil
+//	[3 k]    WatchState(ctx, nil, cb) in a new actor; k=1: cb non-nil, k=0: nil (every second invocation of cb calls
+//	         Enqueue() with no jobs on the same queue before it parks: a re-entrant use the API allows)
 //	[4 a]    API actor a (parked at a gate) runs its critical section
 //	[5 w]    worker w (the executeJob goroutine whose first job was job w, parked at its gate) runs its section
 //	[6 w]    the job function worker w is in returns
@@ -286,6 +287,13 @@ func (s *sys) exec(ev []uint64) (obs []uint64, ok bool) {
 			cb = func(queued, running int) (bool, error) {
 				d.q, d.r = queued, running
 				d.ncb++
+				if d.ncb%2 == 0 {
+					// the callback is user code run outside the queue's lock: it may use the same queue (a feeder would
+					// Enqueue from here); Enqueue() with no jobs only reads the counts
+					s.c.EnterNoPark()
+					_, _ = s.q.Enqueue()
+					s.c.LeaveNoPark()
+				}
 				if s.tearing.Load() {
 					return false, nil
 				}
